@@ -81,9 +81,9 @@ def h_positive(locus, tid, i, j, preset, polya=False, parametric=None):
                     acc = acc + abs(a_[0] - b_[0]) + abs(a_[1] - b_[1])
                 return acc
             # another isoform may take T's place only if the read fits it at least as well: a delta-indistinguishable twin whose
-            # ends are at least as close, or a compatible isoform whose splice sites are at least as close to the read's
+            # ends are at least as close, or a compatible isoform whose splice sites are STRICTLY closer to the read's (on a tie both are reported)
             closer_twin = OR([enddist(u) <= enddist(tid) for u in twins if u in rep] +
-                             [AND(intron_chain_compatible(read, gi.all_isoforms_exons[u], d, tol), sitedist(u) <= sitedist(tid))
+                             [AND(intron_chain_compatible(read, gi.all_isoforms_exons[u], d, tol), sitedist(u) < sitedist(tid))
                               for u in rep if u != tid and u not in twins] or [False])
             g.check(IMPLIES(is_fl, OR(tid in rep, closer_twin)), "the followed isoform is reported for a full-length read "
                     "(only a delta-indistinguishable isoform whose ends are at least as close may be reported in its place)", detail=det)
@@ -194,12 +194,16 @@ def h_history(locus, tid, other, preset):
         params = readfam.matching_params(preset)
         gi = build_locus(locus, params.delta)
         d = params.delta
-        first = positive_read(g, gi.all_isoforms_exons[other], 0, len(gi.all_isoforms_exons[other]) - 1, 0, end_slack=0)
-        # the first read may start far upstream / end far downstream of the locus (unannotated sequence)
-        first = [(first[0][0] - g.int("first_read_upstream", 0, 5000), first[0][1])] + first[1:]
-        g.add(first[0][0] >= 1)
         ex = gi.all_isoforms_exons[tid]
         second = [tuple(x) for x in positive_read(g, ex, 0, len(ex) - 1, d)]
+        g.add(AND(second[0][0] == ex[0][0], second[-1][1] == ex[-1][1]))      # exact ends: the junction jitter is what varies here
+        if other == tid:
+            first = list(second)                  # identical junctions
+        else:
+            oe = gi.all_isoforms_exons[other]
+            first = [tuple(x) for x in oe]
+        # the first read may start far upstream of the locus (unannotated sequence)
+        first = [(max(1, first[0][0] - [0, 300, 4000][g.choice("first_read_upstream", 3)]), first[0][1])] + first[1:]
         pc = lrp.CombinedProfileConstructor(gi, params)
         assigner = lra.LongReadAssigner(gi, params)
         none = PolyAInfo(-1, -1, -1, -1)
@@ -255,8 +259,8 @@ def instances(tier, seed):
                             continue        # on this locus the edited structure is another isoform's (truncated) structure
                     out.append(Instance("far[%s,%s,%s,%s]" % (locus, models[0][0], kind, preset), h_negative(locus, models[0][0], kind, preset), F,
                                         "locus %s, %s with one edit of symbolic size >= 400 bp" % (locus, models[0][0]), weight=15, budget_s=900))
-    for locus, tid, other in ([("alt_site_near", "T1", "T4"), ("skip", "T1", "T2")] if q else
-                              [(l, LOCI[l][0][0], LOCI[l][-1][0]) for l in loci if len(LOCI[l]) > 1]):
+    for locus, tid, other in ([("alt_site_near", "T1", "T1"), ("skip", "T1", "T2"), ("alt_site_tie", "T12", "T12")] if q else
+                              [(l, LOCI[l][0][0], o) for l in loci if len(LOCI[l]) > 1 for o in (LOCI[l][0][0], LOCI[l][-1][0])]):
         out.append(Instance("history[%s,%s after %s]" % (locus, tid, other), h_history(locus, tid, other, "default"), F,
                             "locus %s: a read of %s (possibly starting far upstream) and then a read following %s through one assigner" % (locus, other, tid),
                             weight=60, budget_s=1200))
